@@ -210,7 +210,7 @@ impl World {
             let basech = BaseChannel::new(Config { pending_response_buffer: s.buf }, tr);
             Some(match s.limit {
                 None => Chan::Plain(Box::pin(basech.requests())),
-                Some(l) => Chan::Lim(Box::pin(basech.max_concurrent_requests(l).requests())),
+                Some(l) => Chan::Lim(Box::pin(crate::srv::limited(basech, l, s.buf).requests())),
             })
         };
         let mut tags = BTreeSet::new();
